@@ -6,7 +6,7 @@
       elimination (successive Schur complements = the L D L^T factorisation, computed here in Q,
       pivots > 0), run on the symmetric part of the real mass matrix;
    B. the saddle-point system  [M D^T; D 0] x = b(p)  seen through its rows: the exact candidate
-      (u_f = -(K a).n_f, p_c = a.x_c + c0) depends linearly on theta = (a_0, a_1, a_2, c0), and
+      (u_f = -(K n_f).(P a), p_c = a.x_c + c0) depends linearly on theta = (a_0, a_1, a_2, c0), and
       so does the right-hand side; rows carry the 4 real right-hand sides in 4 extra columns;
    C. the consistency hypothesis of the method-level exactness theorem: the mass matrix applied
       to the interpolant of the constant flux -K e_m equals  sum_c s_cf (x_c - x_f)_m.
@@ -115,7 +115,10 @@ Definition local_ok (tol : Q) (L : local) : bool :=
 (* ------------------------------------------------------------------ B. the saddle-point system *)
 Record inst := mk_inst {
   i_nf : nat;  i_nc : nat;
-  i_K : list (list Q);                 (* constant permeability, 3 x 3, symmetric *)
+  i_K : list (list Q);                 (* constant permeability, 3 x 3, symmetric, ambient coordinates *)
+  i_P : list (list Q);                 (* orthogonal projection onto the tangent space of the grid
+                                          (identity for 3-D grids; embedded 1-D / 2-D grids see the
+                                          tangential part P K P of the tensor) *)
   i_normals : list (list Q);           (* sd.face_normals[:, f], 3 components *)
   i_cc : list (list Q);                (* sd.cell_centers[:, c] *)
   i_fc : list (list Q);                (* sd.face_centers[:, f] *)
@@ -134,8 +137,10 @@ Definition coord (pts : list (list Q)) (p l : nat) : Q := nth l (nth p pts []) 0
 Definition dot3 (u v : list Q) : Q :=
   nth 0 u 0 * nth 0 v 0 + nth 1 u 0 * nth 1 v 0 + nth 2 u 0 * nth 2 v 0.
 
-(* face dof of the interpolated constant flux  -K e_m :  -(K e_m) . n_f  (K symmetric) *)
-Definition ustar (I : inst) (m f : nat) : Q := - dot3 (nth m (i_K I) []) (nth f (i_normals I) []).
+(* face dof of the interpolated constant flux  -K P e_m :  -(K n_f) . (P e_m)  (K, P symmetric) *)
+Definition kn (I : inst) (f : nat) : list Q :=
+  map (fun r => dot3 r (nth f (i_normals I) [])) (i_K I).
+Definition ustar (I : inst) (m f : nat) : Q := - dot3 (kn I f) (nth m (i_P I) []).
 
 (* basis pressure m: x_m for m < 3, the constant 1 for m = 3 *)
 Definition pbasis (pts : list (list Q)) (m p : nat) : Q := if m <? 3 then coord pts p m else 1.
@@ -177,7 +182,7 @@ Definition consist_ok (tol : Q) (I : inst) : bool :=
     (seq 0 3).
 
 Definition shape_ok (I : inst) : bool :=
-  (length (i_K I) =? 3) && (length (i_normals I) =? i_nf I) && (length (i_cc I) =? i_nc I)
+  (length (i_K I) =? 3) && (length (i_P I) =? 3) && (length (i_normals I) =? i_nf I) && (length (i_cc I) =? i_nc I)
   && (length (i_fc I) =? i_nf I) && (length (i_finc I) =? i_nf I)
   && (length (i_rows I) =? i_nf I + i_nc I) && (length (i_mass I) =? i_nf I).
 
